@@ -162,6 +162,27 @@
       a `Result` call with two components of `&mut` state that the caller inspects is `Exec.attempt2`;
       `vec.into_iter()` is the list of the elements (by value, same order); an or-pattern inside a tuple pattern
       (`(A, X | Y)`) is distributed (`(A, X) | (A, Y)`);
+      (transports, `renet_netcode`) `std::net::UdpSocket` is the by-value model `UdpSocket` of section "io" below: `inbox`
+      is a SCRIPT of what the next `recv_from` calls find (a datagram, cut to the buffer's size — the excess is discarded,
+      as the kernel does — or an `io::Error`; no event = `WouldBlock`), `outbox` the log of the datagrams handed to
+      `send_to` (which does NOT fail in the model), `set_nonblocking` succeeds; a `&UdpSocket` receiver / parameter is
+      threaded through like `&mut` state (the socket's state changes behind the shared reference);
+      `io::Error` has the kinds `WouldBlock`, `Interrupted`, `ConnectionReset` and one `opaque` error for every other kind
+      (`e.kind()`, compared with `==`);
+      `loop { … }` is `while true { … }`: it needs a manifest fuel expression, and the only fuel used is
+      `self.socket.pending() + 1` — `pending()` is a MODEL-ONLY method (the length of the script; no Rust counterpart),
+      sound because every round of the two receive loops consumes one event or leaves the loop, which the equivalence
+      theorems prove (the fuel-exhaustion site is unreachable);
+      a local closure `let f = |args| body;` that is only called is INLINED at its call sites (arguments bound by
+      `let`, captured variables are the variables of the enclosing fn; a closure value that escapes is rejected);
+      a `match` with guards on a call scrutinee evaluates the call ONCE into a fresh variable; consecutive guarded
+      arms with the same pattern become one `if … else if …` chain in that arm (`ref` bindings are plain bindings);
+      `let x = match … { P => { …; &mut place[a..b] }, Q => break, R => return … }` makes `x` an alias of the
+      sub-slice `place[a..b]` (read with `slice`, a callee's changes written back with `splice`; the bounds are evaluated
+      once, where the reference is taken);
+      `x.into()` / `?`-conversion to a translated enum with `impl From<S> for E` selected in the manifest is the call
+      of that impl (`E.from_<S>`); `Result::unwrap()` is `unwrap_ok` (panic on `Err`);
+      `use` paths are resolved across the three crates (`renet::…`, `renetcode::…` from `renet_netcode`);
     * a type parameter `I: Into<T>` is `T` and `x.into()` the identity on it (what every caller in the crates passes:
       `u8` channel ids, `Bytes` / `Vec<u8>` messages); a `Result` call whose result the caller inspects
       (`if let Err(e) = f(..)`, `match f(..) { Ok(..) => .., Err(..) => .. }`) is `Exec.attempt`: the `&mut` state the
@@ -188,7 +209,22 @@ namespace RenetVerif.RustSem
 /-- `std::io::Error`: an opaque value (its content is never inspected by translated code) -/
 inductive IoError where
   | opaque
+  | wouldBlock
+  | interrupted
+  | connectionReset
   deriving Repr, DecidableEq
+
+/-- `std::io::ErrorKind` as far as translated code inspects it -/
+inductive ErrorKind where
+  | WouldBlock | Interrupted | ConnectionReset | Other
+  deriving Repr, DecidableEq
+
+/-- `e.kind()` -/
+def IoError.kind : IoError → ErrorKind
+  | .opaque => .Other
+  | .wouldBlock => .WouldBlock
+  | .interrupted => .Interrupted
+  | .connectionReset => .ConnectionReset
 
 /-! ### control flow: a statement either yields a value, `return`s early, `Err`s, or panics -/
 
@@ -545,6 +581,11 @@ def unwrap (o : Option α) (site : String) : Exec ε ρ α :=
   match o with
   | some x => .val x
   | none => .panic site
+/-- `r.unwrap()` on a `Result` -/
+def unwrap_ok {ε' : Type} (r : Except ε' α) (site : String) : Exec ε ρ α :=
+  match r with
+  | .ok x => .val x
+  | .error _ => .panic site
 end lists
 
 
@@ -665,6 +706,37 @@ inductive SocketAddr where
   | v4 (ip : List Nat) (port : Nat)
   | v6 (ip : List Nat) (port : Nat) (flowinfo : Nat) (scope_id : Nat)
   deriving Repr, DecidableEq
+
+/-- `std::net::UdpSocket` (non-blocking).  `inbox` is a SCRIPT: what the next calls of `recv_from` find, in order — a
+    datagram `(source, bytes)` or an `io::Error`; an empty script is `WouldBlock`.  `outbox` logs the datagrams handed to
+    `send_to`, in call order (`send_to` does not fail in the model). -/
+inductive RecvEvent where
+  | dgram (addr : SocketAddr) (bytes : List Nat)
+  | error (e : IoError)
+  deriving Repr, DecidableEq
+
+structure UdpSocket where
+  inbox : List RecvEvent
+  outbox : List (SocketAddr × List Nat)
+  deriving Repr, DecidableEq
+
+/-- `socket.recv_from(&mut buf)`: the datagram is copied to the front of `buf`, cut to `buf.len()` bytes (the excess is
+    discarded, as the kernel does); returns the number of bytes copied and the source -/
+def UdpSocket.recv_from (s : UdpSocket) (buf : List Nat) :
+    Res (IoError × (UdpSocket × List Nat)) (UdpSocket × List Nat × (Nat × SocketAddr)) :=
+  match s.inbox with
+  | [] => .err (.wouldBlock, (s, buf))
+  | .error e :: r => .err (e, ({ s with inbox := r }, buf))
+  | .dgram addr d :: r =>
+    let n := min d.length buf.length
+    .ok ({ s with inbox := r }, d.take n ++ buf.drop n, (n, addr))
+/-- `socket.send_to(buf, addr)` -/
+def UdpSocket.send_to (s : UdpSocket) (buf : List Nat) (addr : SocketAddr) : Res (IoError × UdpSocket) (UdpSocket × Nat) :=
+  .ok ({ s with outbox := s.outbox ++ [(addr, buf)] }, buf.length)
+/-- `socket.set_nonblocking(b)` -/
+def UdpSocket.set_nonblocking (s : UdpSocket) (_b : Bool) : Res (IoError × UdpSocket) (UdpSocket × Unit) := .ok (s, ())
+/-- model only: the number of events still in the script (the fuel of a receive loop is `pending + 1`) -/
+def UdpSocket.pending {ε : Type} (s : UdpSocket) : Res ε Nat := .ok s.inbox.length
 
 /-- `std::net::SocketAddrV4` / `SocketAddrV6`: a `SocketAddr` known to be of that variant (what the patterns
     `SocketAddr::V4(a)` / `SocketAddr::V6(a)` bind) -/
